@@ -1048,14 +1048,14 @@ Lemma step_unfold s e : Inv s -> step s e =
   | ECtrlReq w m =>
     if can_push (ctl_in (getp w s))
     then (let s1 := setp w (getp w s <| ctl_in := ctl_in (getp w s) ++ [MMigReq m] |>) s in
-          match w with PA => s1 <| g_acc := g_acc s ++ [m] |> | PB => s1 end, OAcc true)
+          match w with PA => s1 <| g_acc := g_acc s ++ [m] |> | PB => s1 <| g_accb := g_accb s ++ [m] |> end, OAcc true)
     else (s, OAcc false)
   | ETakeCtrl w =>
     match ctl_out (getp w s) with
     | [] => (s, OMsg None)
     | m :: r =>
       (let s1 := setp w (getp w s <| ctl_out := r |>) s in
-       match w with PA => s1 <| g_done := g_done s ++ [m] |> | PB => s1 end, OMsg (Some m))
+       match w with PA => s1 <| g_done := g_done s ++ [m] |> | PB => s1 <| g_doneb := g_doneb s ++ [m] |> end, OMsg (Some m))
     end
   | EInject m => (s <| net := net s ++ [m] |>, OAcc true)
   end.
